@@ -111,11 +111,6 @@ Definition rms_close (rel abs : Q) (m : rms) (im iv ic : Q) : bool :=
    from the model's by the statistics tolerance *)
 Definition sqrt_hint_ok (th s var eps : Q) : bool :=
   Qle_bool 0 s && qclose th 0 (var + eps) (s * s).
-Definition norm_out_ok (th x mean var eps s c y : Q) : bool :=
-  sqrt_hint_ok th s var eps && qclose (1 # 100000) (1 # 1000000) (normalize_s x mean s c) y.
-Definition unnorm_out_ok (th y mean var eps s x : Q) : bool :=
-  sqrt_hint_ok th s var eps && qclose (1 # 100000) (1 # 1000000) (unnormalize_s y mean s) x.
-
 Definition vn_run_red := vn_run update_red Qred.
 
 (* ---- what step_wait / reset return (extension): observations and terminal observations go through ONE function,
